@@ -135,6 +135,8 @@ func goCache() string {
 var templateProps = map[string][]string{
 	"TestGovcReplayAuthorizerOptions": {"C11"},
 	"TestGovcReplayBlockScoping":      {"C03", "C04"},
+	"TestGovcReplayPolicyOrder":       {"C04"},
+	"TestGovcReplayEvaluateUnbound":   {"C06", "C10"},
 	"TestGovcReplayEntropy":           {"C20"},
 	"TestGovcReplayExprCorpus":        {"C14"},
 	"TestGovcReplayExprTermNil":       {"C14"},
